@@ -977,7 +977,13 @@ func (c *compiler) evalCallExpression(node *ast.CallExpression) (interface{}, er
 			for k, v := range octx.data {
 				c.ctx.Set(k, v)
 			}
-			c.ctx.Set(node.Function.String(), res[0].Interface())
+			// the rest of the path starts at an identifier the parser made
+			// up for the result of this call
+			key, ok := chainRootName(node.ChainCallee)
+			if !ok {
+				return nil, fmt.Errorf("could not evaluate %s after the call", node.ChainCallee.String())
+			}
+			c.ctx.Set(key, res[0].Interface())
 			vvs, err := c.evalExpression(node.ChainCallee)
 			if err != nil {
 				return nil, err
@@ -1220,32 +1226,12 @@ func (c *compiler) evalIndexCallee(rv reflect.Value, node *ast.IndexExpression) 
 		c.ctx.Set(k, v)
 	}
 
-	//The key here is needed to set the object in ctx for later evaluation
-	//For example, if this is a nested object person.Name[0]
-	//then we can set the value of Name[0] to person.Name
-	//As the evalIdent will look for that object by person.Name
-	//If key doesn't contain "." this means we got person[0].Name[0]
-	//If key does contain "." then indexed field that needs to be accessed will be set in Node.left and Node.Callee
-	key := node.Left.String()
-	if strings.Contains(key, ".") {
-		ggg := strings.Split(key, ".")
-		callee := node.Callee.String()
-
-		if !strings.Contains(callee, key) {
-			for {
-				if len(ggg) >= 2 {
-					ggg = ggg[1:]
-				} else {
-					key = ggg[0]
-					break
-				}
-
-				if strings.Contains(callee, strings.Join(ggg, ".")) {
-					key = strings.Join(ggg, ".")
-					break
-				}
-			}
-		}
+	// The rest of the path (node.Callee) starts at an identifier the parser
+	// made up for the indexed value: person.Names[0].First is evaluated as
+	// "<person.Names>.First" with <person.Names> bound to person.Names[0].
+	key, ok := chainRootName(node.Callee)
+	if !ok {
+		return nil, fmt.Errorf("could not evaluate %s after the index", node.Callee.String())
 	}
 
 	c.ctx.Set(key, rv.Interface())
@@ -1256,6 +1242,24 @@ func (c *compiler) evalIndexCallee(rv reflect.Value, node *ast.IndexExpression) 
 	}
 
 	return vvs, nil
+}
+
+// chainRootName finds the name of the identifier a path expression starts at.
+func chainRootName(exp ast.Expression) (string, bool) {
+	switch t := exp.(type) {
+	case *ast.Identifier:
+		for t.Callee != nil {
+			t = t.Callee
+		}
+		return t.Value, true
+	case *ast.IndexExpression:
+		return chainRootName(t.Left)
+	case *ast.CallExpression:
+		if t.Callee != nil {
+			return chainRootName(t.Callee)
+		}
+	}
+	return "", false
 }
 
 func unsafeGetBytes(s string) []byte {
